@@ -783,7 +783,7 @@ func WaitForErrAny(
 	}
 	cases[2] = reflect.SelectCase{
 		Dir:  reflect.SelectRecv,
-		Chan: reflect.ValueOf(t),
+		Chan: reflect.ValueOf(mach.WhenErr(ctx)),
 	}
 	for i, ch := range chans {
 		cases[predef+i] = reflect.SelectCase{
@@ -1796,7 +1796,7 @@ func EvalGetter[T any](
 	}
 
 	// try at least once
-	for range min(maxTries, 1) {
+	for range max(maxTries, 1) {
 		if !mach.Eval("Get/"+source, evalOuter, ctx) {
 			// eval err
 			retErr = fmt.Errorf("%w: EvalGet/%s", am.ErrEvalTimeout, source)
@@ -1821,7 +1821,7 @@ func EvalSetter(
 	}
 
 	// try at least once
-	for range min(maxTries, 1) {
+	for range max(maxTries, 1) {
 		if !mach.Eval("Set/"+source, evalOuter, ctx) {
 			// eval err
 			retErr = fmt.Errorf("%w: EvalSet/%s", am.ErrEvalTimeout, source)
